@@ -38,6 +38,7 @@ def run(ctx: Ctx):
     c02.check_or_idiom(ctx, ic)
     check_fresh_output(ctx, ic)
     check_accumulate(ctx, ic)
+    ctx.section(check_dest_rebound, ctx, ic)
     c03.check_mark_operands(ctx)
     ctx.section(check_output_never_scratch, ctx)
     ctx.section(c02.check_expqmap, ctx)
@@ -67,6 +68,37 @@ def check_fresh_output(ctx: Ctx, ic):
         ctx.check(ok, "MP-fresh-output", fi, "return bit equal to an input gets its own qubit", "fresh qubit + cx from the input", why + ": returning the input's own qubit makes the 'output' an input (the circuit is not |x>|y> -> |x>|y^f(x)>)", r)
     if found != 1:
         raise AnchorError(fi.short, f"{found} returns under the (_ret, input symbol) path, expected 1")
+
+
+def check_dest_rebound(ctx: Ctx, ic):
+    """TS-DEST (provenance): in every synthesis routine the destination is the qubit the caller handed in, or a fresh
+    (zero) ancilla allocated by the routine.  Re-binding `dest` to a qubit found elsewhere (one that already carries a
+    value and may be a control of earlier gates) makes the routine accumulate onto a live qubit."""
+    fresh = ("qc.get_free_ancilla", "qc.add_qubit", "qc.add_ancilla")
+    n = 0
+    for name, fi in sorted(ic.methods.items()):
+        if "dest" not in fi.params:
+            continue
+        n += 1
+        bad = None
+        for a in walk_no_nested(fi.node):
+            tg = []
+            if isinstance(a, ast.Assign):
+                for t in a.targets:
+                    tg += [x for x in ast.walk(t) if isinstance(x, ast.Name) and isinstance(x.ctx, ast.Store)]
+            elif isinstance(a, (ast.AugAssign, ast.AnnAssign)) and isinstance(a.target, ast.Name):
+                tg = [a.target]
+            if not any(t.id == "dest" for t in tg):
+                continue
+            v = getattr(a, "value", None)
+            alts = [v.body, v.orelse] if isinstance(v, ast.IfExp) else [v]
+            ok = isinstance(a, ast.Assign) and len(tg) == 1 and all((isinstance(x, ast.Name) and x.id == "dest") or (isinstance(x, ast.Call) and dotted(x.func) in fresh) or (isinstance(x, ast.Call) and dotted(x.func) == "self.compile_expr" and any(k.arg == "dest" and norm(k.value) == "dest" for k in x.keywords)) for x in alts)
+            if not ok:
+                bad = a
+                break
+        ctx.check(bad is None, "TS-DEST", fi, "the destination is the caller's qubit or a fresh ancilla", "dest is never re-bound to an existing qubit", f"`{norm(bad)[:80] if bad is not None else ''}` re-binds the destination to a qubit that is neither the caller's nor freshly allocated: the result is accumulated onto a qubit that already holds a value and that earlier gates use as a control (for an output qubit: not |y> -> |y xor f(x)>, and the final replay runs those gates against the result)", bad)
+    if n < 4:
+        raise AnchorError(IC, f"only {n} synthesis routines with a dest parameter")
 
 
 def check_accumulate(ctx: Ctx, ic):
